@@ -23,7 +23,7 @@ RULE = (
   "transition = simulating one item in the process; every history is executed in a fresh subprocess of the real implementation and "
   "compared bit-exactly with the target run alone"
 )
-BOUNDS = {"quick": "6 items, all histories of length <= 2 (36 ordered pairs + 6 solos)", "thorough": "8 items, length <= 3 (512 + 64 + 8)"}
+BOUNDS = {"quick": "8 items, all histories of length <= 2 (64 ordered pairs + 8 solos)", "thorough": "10 items, length <= 3"}
 ASSUMPTIONS = ["fresh subprocess per history; same kernel cache directory on disk (the on-disk cache is keyed by source hash)", "bit identity"]
 BUDGET = {"quick": 550, "thorough": 3400}
 SCENARIO_TIMEOUT = 1500
@@ -36,6 +36,12 @@ PRIMS = """<mujoco><option timestep="0.004"/><worldbody><geom type="plane" size=
   <body pos="0.05 0 0.26"><freejoint/><geom type="capsule" size=".05 .1" quat="0.7071 0.7071 0 0"/></body>
   <body pos="0.6 0 0.09"><freejoint/><geom type="cylinder" size=".1 .09"/></body>
   <body pos="0.62 0 0.27"><freejoint/><geom type="sphere" size=".1"/></body></worldbody></mujoco>"""
+
+
+CONVEX = """<mujoco><option timestep="0.004" {opt}/><worldbody><geom type="plane" size="3 3 .1"/>
+  <body pos="0 0 0.099"><freejoint/><geom type="box" size="{b}"/></body>
+  <body pos="0.03 0.02 {z1}"><freejoint/><geom type="ellipsoid" size="{e}"/></body>
+  <body pos="-0.04 -0.03 {z2}"><freejoint/><geom type="cylinder" size="{c}"/></body></worldbody></mujoco>"""
 
 
 def _default_states(mjm, nworld):
@@ -64,6 +70,9 @@ ITEMS = {
   "boxes": dict(xml=lambda: BOXES, states=_default_states),
   "boxes_nonative": dict(xml=lambda: BOXES, states=_default_states, disable="nativeccd"),
   "prims": dict(xml=lambda: PRIMS, states=_default_states),
+  # same geom kinds and pair-type counts, different sizes/poses and a different convex-solver iteration budget
+  "convex": dict(xml=lambda: CONVEX.format(opt="", b=".2 .2 .1", e=".06 .08 .05", c=".05 .04", z1="0.245", z2="0.237"), states=_default_states),
+  "convex_ccd4": dict(xml=lambda: CONVEX.format(opt='ccd_iterations="4"', b=".25 .15 .1", e=".07 .05 .06", c=".04 .05", z1="0.255", z2="0.247"), states=_default_states),
 }
 for _it in ITEMS.values():
   if _it.get("disable") == "nativeccd":
@@ -82,7 +91,7 @@ except Exception:
   pass
 
 NAMES = list(ITEMS)
-QUICK_NAMES = ["rich", "rich_ell_sparse", "small_cg", "boxes", "boxes_nonative", "prims"]  # each child costs ~10-25 s of process start-up
+QUICK_NAMES = ["rich", "rich_ell_sparse", "small_cg", "boxes", "boxes_nonative", "prims", "convex", "convex_ccd4"]  # each child costs ~10-25 s of process start-up
 
 
 def scenarios(tier, seed):
